@@ -8,6 +8,8 @@ import itertools
 from mc import pool, seams, canon, factory_engine as F
 
 NAMES = ["a", "b", "c"]
+# contents that are not `if` blocks: replacefilter takes any parsed command (an unconditional top-level action)
+PARSED = {"p1": 'redirect "bare@example.com";\n', "p2": "keep;\n"}
 
 
 def events(rich=False):
@@ -25,11 +27,13 @@ def events(rich=False):
             if n != o:
                 ev.append(("replace", o, ("fresh", "d1"), n, "desc"))
                 ev.append(("replace", o, ("get", n), None, None))
+        ev.append(("replace", o, ("parsed", "p1"), None, None))
         ev.append(("remove", o))
         ev.append(("enable", o))
         ev.append(("disable", o))
         ev.append(("move", o, "up"))
         ev.append(("move", o, "down"))
+    ev.append(("replace", "a", ("parsed", "p2"), None, None))
     ev.append(("disable", b"a"))
     ev.append(("remove", b"b"))
     ev.append(("replace", "a", ("fresh", "d2"), b"a", None))
@@ -76,6 +80,11 @@ def apply(ev, fs, model, ns):
             content = fs.getfilter("__tmp__")
             fs.removefilter("__tmp__")
             d = src[1]
+        elif src[0] == "parsed":
+            p = ns.parser.Parser()
+            assert p.parse(PARSED[src[1]]) is True, p.error
+            content = p.result[0]
+            d = src[1]
         else:
             i = model._find(src[1])
             if i is None:
@@ -101,7 +110,12 @@ _alone_cache = {}
 
 def alone(ns, d):
     if d not in _alone_cache:
-        text = F.build_alone(ns, d)
+        if d in PARSED:
+            p = ns.parser.Parser()
+            assert p.parse(PARSED[d]) is True, p.error
+            text = F.render_cmd(p.result[0])
+        else:
+            text = F.build_alone(ns, d)
         v, _t, _c = F.ref_parse('require ["fileinto","copy","mailbox","envelope","body","date","relational","vacation","imap4flags","reject"];\n' + text)
         _alone_cache[d] = (text, v.tree[1] if v.tree else None)
     return _alone_cache[d]
@@ -301,7 +315,7 @@ def task(t):
 def run(tier, seed):
     evs = events()
     all_depth = 3 if tier == "quick" else 4
-    bfs_depth = 7 if tier == "quick" else 12
+    bfs_depth = 6 if tier == "quick" else 12
     tasks = [("all", i, all_depth) for i in range(len(evs))] + [("bfs", i, bfs_depth) for i in range(len(evs)) if evs[i][0] == "add"]
     res = pool.run_tasks("checks.c12:task", tasks)
     n = sum(r["n"] for r in res)
